@@ -4,6 +4,7 @@ import json, os, glob
 ROOT = os.path.dirname(os.path.abspath(__file__))
 props = [json.loads(l) for l in open(os.path.join(ROOT, "properties.jsonl")) if l.strip()]
 checks, claimed = [], set()
+reviewed = set(json.load(open(os.path.join(ROOT, "claimed.json"))))  # checks reviewed and run green on the unchanged tree
 engines = {}
 for p in props:
     pid = p["id"]
@@ -11,7 +12,7 @@ for p in props:
     if not os.path.exists(cp):
         continue
     c = json.load(open(cp))
-    if c.get("unclaimed"):
+    if c.get("unclaimed") or pid not in reviewed:
         continue
     claimed.add(pid)
     eng = c.get("engine", "rapid-library")
